@@ -131,6 +131,18 @@ impl Client {
 
         if let RecordKind::Chunk = header.kind {
             let chunk: Chunk = try_deserialize_record(&record)?;
+            // The chunk's address is recomputed from its content when deserialised:
+            // it must be the address that was asked for, else a holder substituted other content.
+            if *chunk.name() != addr {
+                error!(
+                    "Fetched chunk has address {:?}, expected {addr:?}",
+                    chunk.name()
+                );
+                return Err(NetworkError::GetRecordError(
+                    ant_networking::GetRecordError::RecordDoesNotMatch(record),
+                )
+                .into());
+            }
             Ok(chunk)
         } else {
             error!(
